@@ -29,6 +29,14 @@ def harvest_constants():
     src = (REPO / "src/tensora/ir/_peephole.py").read_text()
     ints, floats = set(), set()
     for node in pyast.walk(pyast.parse(src)):
+        if isinstance(node, pyast.UnaryOp) and isinstance(node.op, pyast.USub) and isinstance(node.operand, pyast.Constant):
+            v = node.operand.value
+            if isinstance(v, bool):
+                continue
+            if isinstance(v, int) and abs(v) < 2**31:
+                ints.add(-v)
+            elif isinstance(v, float):
+                floats.add(-v)
         if isinstance(node, pyast.Constant):
             v = node.value
             if isinstance(v, bool):
@@ -44,9 +52,9 @@ def leaves():
     from tensora.ir import ast as ir
 
     hi, hf = harvest_constants()
-    ints = [ir.IntegerLiteral(v) for v in sorted(set([0, 1, 2] + hi))] + [ir.Variable("i"), ir.Variable("j"),
+    ints = [ir.IntegerLiteral(v) for v in sorted(set([0, 1, 2, -1] + hi))] + [ir.Variable("i"), ir.Variable("j"),
                                                                            ir.ArrayIndex(ir.Variable("A"), ir.Variable("i"))]
-    floats = [ir.FloatLiteral(v) for v in sorted(set([0.0, 1.0, 2.5, 0.30000000000000004, 1e-07, 6.0221407600000005e23] + hf))] + [ir.FloatLiteral(-0.0), ir.Variable("x"), ir.Variable("y"),
+    floats = [ir.FloatLiteral(v) for v in sorted(set([0.0, 1.0, -1.0, 2.5, 0.30000000000000004, 1e-07, 6.0221407600000005e23] + hf))] + [ir.FloatLiteral(-0.0), ir.Variable("x"), ir.Variable("y"),
                                                                                ir.ArrayIndex(ir.Variable("X"), ir.Variable("j"))]
     bools = [ir.BooleanLiteral(True), ir.BooleanLiteral(False), ir.Variable("b")]
     return ints, floats, bools
@@ -350,6 +358,63 @@ def kernel_part(chk: Check, drv: Driver):
                               expected=sx(r0)[:800], got=sx(r1)[:800])
     chk.corr("peephole-kernel", n_prob, mism)
     chk.count("kernel_problems", n_prob)
+    if mism and not chk.violations:
+        kernel_failing_input_search(chk, drv, [(t, f) for k_, t, f, _, _ in meta if k_ == "peep"][:400])
+
+
+def kernel_failing_input_search(chk: Check, drv: Driver, problems_):
+    """the optimiser of the code differs from its validated model on generated kernels: run unoptimised vs optimised evaluate
+    kernels of the subtraction-bearing / sparse problems on many more inputs (varied densities, so that every branch of the
+    co-iteration lattice — operand present / absent — is taken) before settling for 'no failing input found'"""
+    from tensora.ir import peephole
+
+    from ..gen import parse_fmt
+
+    rng = chk.rng
+    seen, reqs, meta = set(), [], []
+    for text, fs in problems_:
+        key = (text, json.dumps(fs, sort_keys=True))
+        if key in seen or "-" not in text:
+            continue
+        seen.add(key)
+        a = problems.parse(text)
+        fmts = {n: parse_fmt(f) for n, f in fs.items()}
+        p = problems.make_problem(a, fmts)
+        if isinstance(p, Exception) or len(seen) > 60:
+            continue
+        try:
+            m0 = kernels.generate_ir_module(p, ["evaluate"], optimise=False)
+        except Exception:  # noqa: BLE001
+            continue
+        m1 = peephole(m0)
+        for _ in range(10):
+            sizes = problems.index_sizes(a, rng, choices=(1, 2, 3, 4))
+            tsx, ok = [], True
+            for name in p.formats.keys():
+                modes, ordering = fmts[name]
+                if name == a.target.name:
+                    if any(i not in sizes for i in a.target.indexes):
+                        ok = False
+                        break
+                    tsx.append(kernels.empty_output_sx(name, [sizes[i] for i in a.target.indexes], modes))
+                else:
+                    tn = [t for t in _tensors_of(a) if t.name == name][0]
+                    dims = [sizes[i] for i in tn.indexes]
+                    cv = problems.random_input(rng, dims, rng.choice([0.2, 0.5, 0.8, 1.0]))
+                    tsx.append(kernels.Raw.of_tensor(kernels.make_tensor(cv, dims, modes, ordering)).heap_sx(name))
+            if not ok:
+                continue
+            reqs.append(kernels.exec_request(m0.definitions[0], tsx))
+            reqs.append(kernels.exec_request(m1.definitions[0], tsx))
+            meta.append((text, fs, sx(tsx)))
+    replies = drv.batch(reqs)
+    for k, (text, fs, heap) in enumerate(meta):
+        a0, a1 = kernels.MachineResult(replies[2 * k]), kernels.MachineResult(replies[2 * k + 1])
+        chk.count("kernel_failing_input_search_runs")
+        if a0.ok and a1.ok and not _same_tensors(a0, a1):
+            chk.violation("optimised kernel computes a different result", {"assignment": text, "formats": fs, "heap": heap, "found_by": "directed search after a correspondence break"},
+                          expected=sx(replies[2 * k])[:600], got=sx(replies[2 * k + 1])[:600])
+            return
 
 
 def _tensors_of(assignment):
@@ -394,6 +459,19 @@ def run(chk: Check, drv: Driver):
     chk.count("depth1_exhaustive", len(depth1))
     # deeper
     n2 = 1600 if chk.tier == "quick" else 16000
+    from tensora.ir import ast as ir
+
+    # the shapes tensora's own lowering of subtraction produces (`a - b` is `a + -1 * b`) in every position, int and
+    # float minus-one, both operand orders: where a rule that recognises a negation must not confuse its operands
+    vars_ = [ir.Variable("i"), ir.Variable("j"), ir.Variable("x"), ir.Variable("y"), ir.ArrayIndex(ir.Variable("X"), ir.Variable("j")),
+             ir.IntegerLiteral(0), ir.FloatLiteral(0.0), ir.FloatLiteral(2.5)]
+    neg = []
+    for m1 in (ir.IntegerLiteral(-1), ir.FloatLiteral(-1.0)):
+        for a_ in vars_:
+            for b_ in vars_:
+                neg += [ir.Add(ir.Multiply(m1, a_), b_), ir.Add(a_, ir.Multiply(m1, b_)), ir.Add(ir.Multiply(a_, m1), b_), ir.Add(a_, ir.Multiply(b_, m1)),
+                        ir.Subtract(ir.Multiply(m1, a_), b_), ir.Subtract(a_, ir.Multiply(m1, b_)), ir.Multiply(ir.Multiply(m1, a_), b_)]
+    check_trees(chk, drv, neg, "expr", n_envs, "PEEPE")
     i2, f2, b2 = grow(ints + i1, floats + f1, bools + b1, rng, n2)
     check_trees(chk, drv, i2 + f2 + b2, "expr", n_envs, "PEEPE")
     i3, f3, b3 = grow(ints + i1 + i2[:500], floats + f1 + f2[:500], bools + b1 + b2[:500], rng, n2 // 4)
@@ -401,7 +479,6 @@ def run(chk: Check, drv: Driver):
     if chk.tier == "thorough":
         # depth-2 trees with one leaf child, exhaustively
         li, lf, lb = grow(ints, floats, bools)
-        from tensora.ir import ast as ir
 
         allnum1 = [(e, "i") for e in i1] + [(e, "f") for e in f1]
         leafnum = [(e, "i") for e in ints] + [(e, "f") for e in floats]
